@@ -356,11 +356,44 @@ def r10_7_8(ctx) -> None:
               construct="default now")
 
 
+def r10_9(ctx) -> None:
+    """R10.9  "otherwise it raises the error of the matching class": the exception flow (S9) of validate() and of every validate_<claim> method lets
+    only the library's claim errors (subclasses of JoseError) escape - nothing that formats, converts or compares a claim value on the way to the
+    error (e.g. a date formatter in the error message) can replace it by ValueError / OverflowError / TypeError for far-out values."""
+    eng = ctx.eng
+    P = eng.prog
+    from ..excflow import ExcFlow
+    cr = P.cls("rfc7519.registry:ClaimsRegistry")
+    base = P.cls("errors:JoseError")
+    ents = [m for c in [cr] + cr.all_subclasses() for nm, m in sorted(c.methods.items()) if nm == "validate" or nm.startswith("validate_")]
+    if len(ents) < 4:
+        raise AnalysisError("claims validation entries vanished")
+    xf = ExcFlow(P, eng.cg)
+    xf.solve(ents)
+    if xf.unclassified:
+        raise AnalysisError(f"R10.9: external callees without a throws-table entry: {sorted(xf.unclassified)[:6]}")
+    n = 0
+    bad: Dict[Tuple[str, str], List[str]] = {}
+    for en in ents:
+        for esc in xf.summary(en):
+            n += 1
+            c = P.classes.get("joserfc." + esc.exc) if ":" in esc.exc else None
+            if c is not None and c.is_subclass_of(base):
+                continue
+            bad.setdefault((esc.exc, esc.origin), []).append(en.short)
+    for (exc, origin), ens in sorted(bad.items()):
+        fn = ents[0]
+        ctx.fail("R10.9", P.func(ens[0]) if ens else fn, None, f"{exc} raised by `{origin[:60]}` escapes from {sorted(set(ens))[:3]}: a claim that must be refused with the matching claim error "
+                 "is refused with another exception class", construct=f"{exc} from {origin[:50]} escapes claims validation")
+    ctx.count("R10.9", n, 15, "(entry, escaping exception, origin) triples of the claims validators")
+
+
 def run(ctx) -> None:
     ctx.guard(r10_1_2_3)
     ctx.guard(r10_4)
     ctx.guard(r10_5)
     ctx.guard(r10_6)
     ctx.guard(r10_7_8)
+    ctx.guard(r10_9)
     ctx.assume("Python comparison semantics on the claim values (exotic value types are outside the statement)")
     ctx.note("whether exp == now - leeway is still valid is left open by the statement: both `<` and `<=` are accepted for exp")
